@@ -163,6 +163,29 @@ def definition_shape(rnd):
     return d + rnd.choice(['', ' ', '\n']) + use + rnd.choice(['', ' z', '\n\nz'])
 
 
+WRAP_DEF = ['\\newcommand{\\zq}{%s}', '\\def\\zq{%s}', '\\newcommand{\\zq}[1][d]{%s}', '\\newcommand\\zq{%s}']
+WRAP_TAIL = ['', '', '', ' ', '\n', '.', ' ab', ' Ok.', '{x}', '\\zq', '\n\nNext text.\n']
+
+
+def wrapped_shape(rnd, targets):
+    """a construct of the vocabulary hidden in the body of the short macro \\zq, which is then
+    called at (or close to) the very end of the text: everything the construct generates
+    stems from a call that is only three characters long"""
+    while True:
+        head, args, name = rnd.choice(targets)
+        if name not in ('\\newcommand', '\\renewcommand', '\\def'):
+            break
+    body = head
+    for c in args:
+        if c == 'A':
+            body += rnd.choice(['{a}', '{a}', '{Ab c}'])
+        elif c == 'O':
+            body += rnd.choice(['', '', '[b]'])
+    d = rnd.choice(WRAP_DEF) % body
+    pre = rnd.choice(['', 'Word ', 'Word\n\n', '\\zq\n'])
+    return d + rnd.choice(['\n', ' ', '']) + pre + '\\zq' + rnd.choice(WRAP_TAIL)
+
+
 def is_malformed(src):
     """independent, cheap test for 'malformed': unbalanced braces / brackets /
     environments / maths, stray #, or a macro at the very end"""
